@@ -99,4 +99,55 @@ theorem inv_new (len : Nat) (h : len ≤ u16Max) : Inv (P.new len) := by
   refine ⟨by simp [P.new], h, ?_⟩
   intro se hse; simp [P.new] at hse
 
+/-! ### paths of any length, static steps (scope prefixes) mixed with dynamic captures -/
+
+theorem inv2_of_inv {p : P} (h : Inv p) : Inv2 p :=
+  ⟨h.1, Nat.le_trans h.1 h.2.1, fun hgt => absurd h.2.1 (by omega), h.2.2⟩
+
+theorem inv_of_inv2 {p : P} (h : Inv2 p) (hlen : p.len ≤ u16Max) : Inv p :=
+  ⟨h.1, hlen, h.2.2.2⟩
+
+theorem inv2_new (len : Nat) : Inv2 (P.new len) := by
+  refine ⟨by simp [P.new], by simp [P.new], fun _ => by simp [P.new], ?_⟩
+  intro se hse; simp [P.new] at hse
+
+/-- a static step keeps the invariant provided the consumed prefix stays inside the path (the
+static matcher's post-condition) and inside `u16` (automatic when the path fits `u16`; for a
+longer path it says that the route table's static prefixes are not themselves ≥ 64 KiB) -/
+theorem staticStep_inv2 (p : P) (n : Nat) (hi : Inv2 p) (hn : n ≤ p.len - p.skip)
+    (hfit : p.skip + n ≤ u16Max) : ∃ p', staticStep p n = .ok p' ∧ Inv2 p' := by
+  have hnu : asU16 n = n := asU16_small (by omega)
+  have hsk : uadd u16Max "path.rs:147 self.skip += n" p.skip (asU16 n) = .ok (p.skip + n) := by
+    rw [hnu]; exact uadd_ok hfit
+  refine ⟨⟨p.len, p.skip + n, p.segs⟩, by simp [staticStep, hsk], ?_⟩
+  obtain ⟨h1, _, h3, h4⟩ := hi
+  exact ⟨by simp; omega, hfit, h3, h4⟩
+
+/-- a dynamic capture keeps the invariant for a path of any length: it is refused when the FULL
+path does not fit `u16`, and otherwise `skip + end ≤ len ≤ u16::MAX` -/
+theorem capture_inv2 (p : P) (m : Match) (hi : Inv2 p) (hm : m.Valid p) :
+    capture p m = .ok none ∨ ∃ p', capture p m = .ok (some p') ∧ Inv2 p' := by
+  unfold capture
+  split
+  · exact Or.inl rfl
+  · rename_i hle
+    have hlen : p.len ≤ u16Max := by omega
+    obtain ⟨p', hp', hinv'⟩ := captureUnguarded_inv p m (inv_of_inv2 hi hlen) hm
+    exact Or.inr ⟨p', by simp [hp', Outcome.map], inv2_of_inv hinv'⟩
+
+theorem getSeg_noPanic2 (p : P) (i : Nat) (hi : Inv2 p) : NoPanic (getSeg p i) := by
+  unfold getSeg
+  cases h : p.segs[i]? with
+  | none => simp
+  | some se =>
+    obtain ⟨s, e⟩ := se
+    have hm : (s, e) ∈ p.segs := List.mem_of_getElem? h
+    have := hi.2.2.2 (s, e) hm
+    simp only at this
+    simp [this]
+
+theorem iterAll_noPanic2 (p : P) (hi : Inv2 p) : NoPanic (iterAll p) := by
+  obtain ⟨k, hk⟩ := iterAll_ok p.len p.segs 0 hi.2.2.2
+  unfold iterAll; rw [hk]; simp
+
 end ActixModel.Panic.Path
